@@ -4,6 +4,7 @@
   structural recursion on explicit fuel; `OutOfFuel` is an ordinary reported error.)
 -/
 import NextestModel.Model.Syntax
+import NextestModel.Gen.Tables
 namespace NextestModel.C20
 open NextestModel NextestModel.Syntax
 
@@ -78,5 +79,14 @@ theorem printed_regex_slashes_escaped : ∀ s : List Char,
         · rename_i heq; injection heq with h1 h2; exact absurd h1 h
         · rename_i heq; injection heq with h1 h2; subst h1 h2; rfl
       simp [this, ih, h]
+
+/-! ## Tie to the source: the escape table of `parse_escaped_char` -/
+
+/-- Every single-character escape the real parser accepts (extracted on this run) is accepted by the
+    model with the same value, and the model accepts no other single ASCII character after a backslash. -/
+theorem escape_table_matches_source :
+    (∀ p ∈ Gen.escapeTable, parseEscapeBody [Char.ofNat p.1] = some (Char.ofNat p.2, [])) ∧
+    (∀ n : Fin 128, (parseEscapeBody [Char.ofNat n.val]).isSome = (Gen.escapeTable.map (·.1)).contains n.val) := by
+  refine ⟨by decide, by decide +kernel⟩
 
 end NextestModel.C20
